@@ -21,20 +21,31 @@
    there for the next process - the constructor's QSettings object writes the file when it goes out of scope. *)
 EXTENDS Naturals, Sequences, FiniteSets, TLC
 
-CONSTANTS Apps,      \* application identities "org/name"
-          Vers,      \* version strings
-          H          \* handler identities
+CONSTANTS
+    \* @type: Set(Str);
+    Apps,      \* application identities "org/name"
+    \* @type: Set(Str);
+    Vers,      \* version strings
+    \* @type: Set(Int);
+    H          \* handler identities
 
-VARIABLES app,       \* [id, ver]: what QCoreApplication says now ("-" = nothing set in this process yet)
-          store,     \* Apps -> Nat: persistent settings value of "app_uuid" (0 = absent)
-          hs,        \* H -> handler record ([k |-> "none"] when there is no such handler)
-          fresh,     \* number of UUIDs generated so far
-          epoch,     \* ghost: Apps -> how often the settings of that identity were wiped
-          issued     \* ghost: set of [id, ep, uuid] - every UUID a handler ever answered with, where and when
+VARIABLES
+    \* @type: {id: Str, ver: Str};
+    app,       \* [id, ver]: what QCoreApplication says now ("-" = nothing set in this process yet)
+    \* @type: Str -> Int;
+    store,     \* Apps -> Nat: persistent settings value of "app_uuid" (0 = absent)
+    \* @type: Int -> {k: Str, id: Str, ver: Str, uuid: Int};
+    hs,        \* H -> handler record [k, id, ver, uuid] (k = "none" when there is no such handler)
+    \* @type: Int;
+    fresh,     \* number of UUIDs generated so far
+    \* @type: Str -> Int;
+    epoch,     \* ghost: Apps -> how often the settings of that identity were wiped
+    \* @type: Set({id: Str, ep: Int, uuid: Int});
+    issued     \* ghost: set of [id, ep, uuid] - every UUID a handler ever answered with, where and when
 
 evars == <<app, store, hs, fresh, epoch, issued>>
 
-None == [k |-> "none"]
+None == [k |-> "none", id |-> "-", ver |-> "", uuid |-> 0]
 
 EInit == /\ app = [id |-> "-", ver |-> ""]
          /\ store = [a \in Apps |-> 0]
@@ -49,12 +60,12 @@ SetApp(a, v) == /\ app' = [id |-> a, ver |-> v]
 
 (* AppInfoAttrs(): snapshot of the application's identity *)
 NewInfo(h) == /\ hs[h].k = "none"
-              /\ hs' = [hs EXCEPT ![h] = [k |-> "info", id |-> app.id, ver |-> app.ver]]
+              /\ hs' = [hs EXCEPT ![h] = [k |-> "info", id |-> app.id, ver |-> app.ver, uuid |-> 0]]
               /\ UNCHANGED <<app, store, fresh, epoch, issued>>
 
 (* SysInfoAttrs(): snapshot of QSysInfo (constant for a machine; the trace specification compares the eleven values) *)
 NewSys(h) == /\ hs[h].k = "none"
-             /\ hs' = [hs EXCEPT ![h] = [k |-> "sys"]]
+             /\ hs' = [hs EXCEPT ![h] = [k |-> "sys", id |-> "-", ver |-> "", uuid |-> 0]]
              /\ UNCHANGED <<app, store, fresh, epoch, issued>>
 
 (* AppUuidAttr(name): read the settings of the CURRENT identity; create and store a UUID when there is none *)
@@ -64,7 +75,7 @@ NewUuid(h) == /\ hs[h].k = "none"
                      u == IF old = 0 THEN fresh + 1 ELSE old
                  IN  /\ fresh' = IF old = 0 THEN fresh + 1 ELSE fresh
                      /\ store' = [store EXCEPT ![app.id] = u]
-                     /\ hs' = [hs EXCEPT ![h] = [k |-> "uuid", id |-> app.id, uuid |-> u]]
+                     /\ hs' = [hs EXCEPT ![h] = [k |-> "uuid", id |-> app.id, ver |-> "", uuid |-> u]]
                      /\ issued' = issued \cup {[id |-> app.id, ep |-> epoch[app.id], uuid |-> u]}
               /\ UNCHANGED <<app, epoch>>
 
